@@ -519,7 +519,9 @@ func cvxNewWorld() *cvxWorld {
 		log.SetOutput(io.Discard)
 	}
 	w.upstream = httptest.NewUnstartedServer(http.HandlerFunc(w.serveUpstream))
-	w.upstream.Config.ErrorLog = log.New(io.Discard, "", 0)
+	if os.Getenv("VERIF_LOG") == "" {
+		w.upstream.Config.ErrorLog = log.New(io.Discard, "", 0)
+	}
 	w.upstream.Start()
 	w.upAddr = w.upstream.Listener.Addr().String()
 	w.client = &http.Client{
@@ -684,7 +686,9 @@ func (w *cvxWorld) front(k cvxCfgKey) *cvxFront {
 		},
 	}
 	srv := httptest.NewUnstartedServer(p)
-	srv.Config.ErrorLog = log.New(io.Discard, "", 0)
+	if os.Getenv("VERIF_LOG") == "" {
+		srv.Config.ErrorLog = log.New(io.Discard, "", 0)
+	}
 	if k.tls {
 		srv.StartTLS()
 	} else {
@@ -802,7 +806,8 @@ func (w *cvxWorld) doHTTP(cs *cvxCase, id int64) (*cvxGot, error) {
 	var head bytes.Buffer
 	n, err := io.Copy(io.MultiWriter(h, &cvxHead{b: &head, max: 4096}), resp.Body)
 	if err != nil {
-		return nil, fmt.Errorf("reading response body: %v", err)
+		return nil, fmt.Errorf("reading response body: %v (status %d, Content-Length %d, Transfer-Encoding %v, %d bytes read, answer body %d chunked=%v, tls=%v)",
+			err, resp.StatusCode, resp.ContentLength, resp.TransferEncoding, n, att.RespBody, att.RespChunked, cs.C.TLS)
 	}
 	g.BodyLen, g.BodySum, g.Body = n, h.Sum64(), head.Bytes()
 	return g, nil
